@@ -106,9 +106,21 @@ ContraUnk(r, call) ==
     [] call.c = "PrefixSafe" -> ~Compatible(SafePart(call.p), PrefixOf(r))
 
 \* the call contradicts a KNOWN (or null) orig
-ContraKnown(orig, call) == ~Sat(call, orig)
+\* (a known set holding unknown members has a length RANGE: a length constraint contradicts it only if no length in the range satisfies it)
+CouldSat(call, c) ==
+  CASE c.st = "null" -> Sat(call, c)
+    [] call.c = "LenLower" -> call.k <= LenHiOf(c)
+    [] call.c = "LenUpper" -> LenLoOf(c) <= call.k
+    [] call.c = "LenExact" -> LenLoOf(c) <= call.k /\ call.k <= LenHiOf(c)
+    [] OTHER -> Sat(call, c)
+ContraKnown(orig, call) == ~CouldSat(call, orig)
 
-Contradictory(orig, r, call) == IF orig.st = "unk" THEN ContraUnk(r, call) ELSE ContraKnown(orig, call)
+\* the builder also keeps the length bounds stated about a KNOWN collection, so bounds that each fit a length range can still contradict each other
+LenCalls == {"LenLower", "LenUpper", "LenExact"}
+Contradictory(orig, r, call) ==
+  IF orig.st = "unk" THEN ContraUnk(r, call)
+  ELSE ContraKnown(orig, call) \/ (orig.st = "k" /\ call.c \in LenCalls /\ EmptyLen(Meet(r, call)))
+NextRange(orig, r, call) == IF orig.st = "unk" \/ (orig.st = "k" /\ call.c \in LenCalls) THEN Meet(r, call) ELSE r
 
 InitRange(orig) == IF orig.st = "unk" THEN orig.rf ELSE NoRf
 
@@ -119,7 +131,10 @@ VARIABLES orig, r, said, status
 rvars == <<orig, r, said, status>>
 
 Origs == UNION {{Unk(t, NoRf)} \cup UnkVals(t) : t \in {TNum, TStr, TBool, TList(TStr), TSet(TNum), TMap(TBool), TObj([a |-> TNum])}}
-         \cup {NumV(4), NumV(0), StrV(<<"a", "b">>), Null(TNum), Null(TStr), SeqV(TList(TStr), <<StrV(<<"a">>)>>), DynVal}
+         \cup {NumV(4), NumV(0), StrV(<<"a", "b">>), Null(TNum), Null(TStr), SeqV(TList(TStr), <<StrV(<<"a">>)>>), DynVal,
+               \* known collections: exact lengths, and sets whose unknown members may coalesce (length 1..2, 1..3)
+               SeqV(TList(TStr), <<>>), SeqV(TSet(TNum), <<NumV(0), NumV(4)>>), MapV(TMap(TBool), [a |-> BoolV(TRUE)]),
+               SeqV(TSet(TNum), <<NumV(0), Unk(TNum, NoRf)>>), SeqV(TSet(TNum), <<Unk(TNum, [null |-> "F"]), Unk(TNum, NoRf), NumV(4)>>)}
 
 RInit == orig \in Origs /\ r = InitRange(orig) /\ said = <<>> /\ status = "open"
 
@@ -129,7 +144,7 @@ Do(call) ==
   /\ IF orig = DynVal THEN UNCHANGED <<orig, r, status>>        \* DynamicVal ignores refinement
      ELSE IF ~Applies(call, orig.ty) \/ Contradictory(orig, r, call)
           THEN status' = "rejected" /\ UNCHANGED <<orig, r>>
-          ELSE /\ r' = IF orig.st = "unk" THEN Meet(r, call) ELSE r
+          ELSE /\ r' = NextRange(orig, r, call)
                /\ UNCHANGED <<orig, status>>
   /\ said' = Append(said, call)
 
